@@ -194,6 +194,82 @@ fn writers_for(input: &[u8], with_empty_writes: bool, with_flushes: bool) -> (u6
     (calls, states.len() as u64, viols)
 }
 
+/// a Send version of the short-writing targets, handed directly to the two command entry points
+struct SharedS {
+    store: std::sync::Arc<std::sync::Mutex<Vec<u8>>>,
+    max: usize,
+}
+impl Write for SharedS {
+    fn write(&mut self, buf: &[u8]) -> std::io::Result<usize> {
+        let k = buf.len().min(self.max);
+        self.store.lock().unwrap().extend_from_slice(&buf[..k]);
+        Ok(k)
+    }
+    fn flush(&mut self) -> std::io::Result<()> {
+        Ok(())
+    }
+}
+fn mk_sink_s(kind: usize, store: std::sync::Arc<std::sync::Mutex<Vec<u8>>>) -> Box<dyn Write + Send> {
+    match kind {
+        0 => Box::new(SharedS { store, max: usize::MAX }),
+        1 => Box::new(SharedS { store, max: 1 }),
+        2 => Box::new(SharedS { store, max: 7 }),
+        3 => Box::new(std::io::LineWriter::with_capacity(16, SharedS { store, max: usize::MAX })),
+        _ => Box::new(std::io::LineWriter::with_capacity(16, SharedS { store, max: 3 })),
+    }
+}
+
+/// both entry points (spawn_and_write_streams, output_and_write_streams) x every pair of target
+/// behaviours x stream sizes: every byte the child wrote must reach the supplied writers (and the
+/// returned Output), whatever a single write call of the target accepts
+fn entry_points_with_short_writers() -> (u64, Vec<Viol>) {
+    let payload = |n: usize, tag: u8| -> Vec<u8> { (0..n).map(|i| if i % 50 == 49 { b'\n' } else { tag + (i % 10) as u8 }).collect() };
+    let mut viols = Vec::new();
+    let mut runs = 0u64;
+    let jobs: Vec<(usize, usize, usize, usize, usize)> = (0..2).flat_map(|e| (0..SINK_KINDS).flat_map(move |a| (0..SINK_KINDS).flat_map(move |b| [0usize, 36, 5000].into_iter().flat_map(move |no| [0usize, 7, 9000].into_iter().map(move |ne| (e, a, b, no, ne)))))).collect();
+    let results: Vec<Option<Viol>> = jobs
+        .par_iter()
+        .map(|&(entry, ka, kb, no, ne)| {
+            let (po, pe) = (payload(no, b'0'), payload(ne, b'a'));
+            let script = format!("printf '%s' '{}'; printf '%s' '{}' >&2", String::from_utf8_lossy(&po), String::from_utf8_lossy(&pe));
+            let so = std::sync::Arc::new(std::sync::Mutex::new(Vec::new()));
+            let se = std::sync::Arc::new(std::sync::Mutex::new(Vec::new()));
+            let mut cmd = Command::new("/bin/sh");
+            cmd.arg("-c").arg(&script).stdin(std::process::Stdio::null());
+            let mut returned: Option<(Vec<u8>, Vec<u8>)> = None;
+            let r = if entry == 0 {
+                cmd.spawn_and_write_streams(mk_sink_s(ka, so.clone()), mk_sink_s(kb, se.clone())).and_then(|mut c| c.wait()).map(|_| ())
+            } else {
+                cmd.output_and_write_streams(mk_sink_s(ka, so.clone()), mk_sink_s(kb, se.clone())).map(|o| {
+                    returned = Some((o.stdout, o.stderr));
+                })
+            };
+            let name = ["spawn_and_write_streams", "output_and_write_streams"][entry];
+            let replay = json!({"kind": "entry-short", "entry": entry, "sinks": [ka, kb], "sizes": [no, ne]});
+            if let Err(e) = r {
+                return Some(("entry:failed".to_string(), format!("{name} with targets ({}, {}) on {no}/{ne} bytes failed: {e}", SINK_NAMES[ka], SINK_NAMES[kb]), replay));
+            }
+            let (go, ge) = (so.lock().unwrap().clone(), se.lock().unwrap().clone());
+            if go != po || ge != pe {
+                return Some(("entry:bytes-lost-with-short-writer".to_string(), format!("{name} with targets ({}, {}): the child wrote {no}/{ne} bytes to stdout/stderr, the writers received {}/{} (first difference at {:?}/{:?})", SINK_NAMES[ka], SINK_NAMES[kb], go.len(), ge.len(), go.iter().zip(&po).position(|(a, b)| a != b), ge.iter().zip(&pe).position(|(a, b)| a != b)), replay));
+            }
+            if let Some((ro, re)) = returned {
+                if ro != po || re != pe {
+                    return Some(("entry:returned-output-differs".to_string(), format!("{name}: returned Output holds {}/{} bytes, the child wrote {no}/{ne}", ro.len(), re.len()), replay));
+                }
+            }
+            None
+        })
+        .collect();
+    for v in results {
+        runs += 1;
+        if let Some(v) = v {
+            viols.push(v);
+        }
+    }
+    (runs, viols)
+}
+
 /// segment lengths around every power of two from 2^10 to 2^17 (internal buffer thresholds): one
 /// long segment + marker + short remainder, written whole, in two halves and in 4096-byte chunks
 fn big_segments() -> (u64, u64, Vec<Viol>) {
@@ -792,6 +868,11 @@ fn main() {
             } else {
                 println!("conforms to the pipe model; all bytes delivered in order");
             }
+        } else if r["kind"] == "entry-short" {
+            for (sig, what, _) in entry_points_with_short_writers().1 {
+                println!("DIFFERENCE: {what}");
+                rep.violation(&sig, what, json!({}));
+            }
         } else if r["kind"] == "mapped-long" {
             for (sig, what, _) in big_segments().2 {
                 println!("DIFFERENCE: {what}");
@@ -811,6 +892,11 @@ fn main() {
     let mut wres: Vec<(u64, u64, Vec<Viol>)> = strings.par_iter().map(|s| writers_for(s, s.len() <= 4, false)).collect();
     wres.extend(strings.par_iter().filter(|s| s.len() <= 6).map(|s| writers_for(s, false, true)).collect::<Vec<_>>());
     wres.push(big_segments());
+    let (entry_runs, entry_viols) = entry_points_with_short_writers();
+    for (sig, what, r) in entry_viols {
+        rep.violation(&sig, what, r);
+    }
+    rep.cov("entry_point_runs_with_short_writers", entry_runs);
     let mut wcalls = 0;
     let mut wstates = 0;
     for (c, s, v) in wres {
@@ -886,7 +972,7 @@ fn main() {
     rep.cov("evaluations", schedules + wcalls);
     rep.cov("distinct_nontrivial", schedules + wstates);
     rep.cov("determinism_replays", 1);
-    rep.cov("rule", "writers: every string over {marker,a,b} up to the length bound x every chunking (plus empty writes for short strings) x 4 mapping functions x finish by drop/unwrap through the real MappedWrite, and TeeWrite incl. failing targets; pipe system: PipeModel explored exhaustively with stateright-style BFS over all scripts (PAR must be deadlock-free and lossless, SEQ variants must deadlock = negative control), then every maximal sequence of environment actions (token, grant out, grant err) of the model is driven through the real output_and_write_streams with a scripted child (4096-byte pipes) and gated sinks, waiting for exactly the events the model predicts");
+    rep.cov("rule", "writers: every string over {marker,a,b} up to the length bound x every chunking (plus empty writes for short strings) x 4 mapping functions x finish by drop/unwrap through the real MappedWrite, and TeeWrite incl. failing targets; both command entry points x 5x5 target behaviours (accept-all, <=1, <=7 bytes per call, LineWriter over either) x 3x3 stream sizes handed the targets directly; pipe system: PipeModel explored exhaustively with stateright-style BFS over all scripts (PAR must be deadlock-free and lossless, SEQ variants must deadlock = negative control), then every maximal sequence of environment actions (token, grant out, grant err) of the model is driven through the real output_and_write_streams with a scripted child (4096-byte pipes) and gated sinks, waiting for exactly the events the model predicts");
     rep.cov("bound", json!({"writer_string_len": if args.thorough() {8} else {7}, "model_script_len": mlen, "driven_script_len": slen, "write_sizes": [1, 2048, 4096], "pipe_capacity": CAP, "schedules_per_script_cap": per_script_cap}));
     rep.cov("exhaustive", capped == 0);
     if capped > 0 {
